@@ -96,6 +96,21 @@ def check(toks, resp, mode, build):
         n, d = reduced(c, s)
         want = "R %d %d %d %d" % (n, d, n, d)
         return ("ok" if resp.raw == want else "viol"), "ratio", s > 0 and d != P10[s], want
+    if op == "hashslice":
+        n = int(toks[1])
+        from fractions import Fraction
+        a = [Fraction(c, P10[s]) for c, s in (E.pD(t) for t in toks[2:2 + n])]
+        b_ = [Fraction(c, P10[s]) for c, s in (E.pD(t) for t in toks[2 + n:2 + 2 * n])]
+        eq = a == b_
+        want = "U h h g g t t 11 (equal sequences hash alike as Vec, slice and tuple)" if eq else "U .. 00"
+        f = resp.f
+        if resp.kind != "U" or len(f) != 7:
+            return "viol", "hashslice", True, want
+        if eq:
+            ok = f[0] == f[1] and f[2] == f[3] and f[4] == f[5] and f[6] == "11"
+        else:
+            ok = f[6] == "00"
+        return ("ok" if ok else "viol"), "hashslice." + ("eq" if eq else "ne"), True, want
     if op == "hashset":
         k = int(toks[1])
         items = [E.pD(t) for t in toks[2:]]
@@ -236,6 +251,15 @@ def gen(rng, tier, shard, batch):
         if rng.random() < 0.2:
             n, d = reduced(c, s)
             reqs.append("hashpair %d %d" % (n, d))
+        if rng.random() < 0.1:
+            # composite keys: the same values in other representations (and one deliberately different sequence)
+            n = rng.randrange(1, 5)
+            seq = [(c, s)] + [G.dec(rng) for _ in range(n - 1)]
+            alt = [rng.choice(G.representations(*x)) for x in seq]
+            if rng.random() < 0.2:
+                j = rng.randrange(n)
+                alt[j] = (alt[j][0] + (1 if alt[j][0] < M else -1), alt[j][1])
+            reqs.append("hashslice %d %s %s" % (n, " ".join(G.fD(*x) for x in seq), " ".join(G.fD(*x) for x in alt)))
         if rng.random() < 0.15:
             items = []
             for _ in range(rng.randrange(2, 6)):
